@@ -109,11 +109,51 @@ class AugToAssign(ast.NodeTransformer):
         return node
 
 
+class InvertIf(ast.NodeTransformer):
+    """if c: A else: B  ->  if not c: B else: A   (only plain if/else, not elif chains)"""
+
+    def visit_If(self, node):
+        self.generic_visit(node)
+        if node.orelse and not (len(node.orelse) == 1 and isinstance(node.orelse[0], ast.If)):
+            t = node.test.operand if isinstance(node.test, ast.UnaryOp) and isinstance(node.test.op, ast.Not) else ast.UnaryOp(op=ast.Not(), operand=node.test)
+            return ast.copy_location(ast.If(test=t, body=node.orelse, orelse=node.body), node)
+        return node
+
+
+class NestIf(ast.NodeTransformer):
+    """if a and b: X   (no else)  ->  if a: if b: X"""
+
+    def visit_If(self, node):
+        self.generic_visit(node)
+        if not node.orelse and isinstance(node.test, ast.BoolOp) and isinstance(node.test.op, ast.And) and len(node.test.values) == 2:
+            inner = ast.If(test=node.test.values[1], body=node.body, orelse=[])
+            return ast.copy_location(ast.If(test=node.test.values[0], body=[ast.copy_location(inner, node)], orelse=[]), node)
+        return node
+
+
+class DeMorgan(ast.NodeTransformer):
+    """a != b -> not a == b ;  not (a and b) -> not a or not b ;  a is not b -> not a is b"""
+
+    def visit_Compare(self, node):
+        self.generic_visit(node)
+        if len(node.ops) == 1 and isinstance(node.ops[0], (ast.NotEq, ast.IsNot, ast.NotIn)):
+            op = {ast.NotEq: ast.Eq, ast.IsNot: ast.Is, ast.NotIn: ast.In}[type(node.ops[0])]()
+            return ast.copy_location(ast.UnaryOp(op=ast.Not(), operand=ast.Compare(left=node.left, ops=[op], comparators=node.comparators)), node)
+        return node
+
+    def visit_UnaryOp(self, node):
+        self.generic_visit(node)
+        if isinstance(node.op, ast.Not) and isinstance(node.operand, ast.BoolOp):
+            op = ast.Or() if isinstance(node.operand.op, ast.And) else ast.And()
+            return ast.copy_location(ast.BoolOp(op=op, values=[ast.UnaryOp(op=ast.Not(), operand=v) for v in node.operand.values]), node)
+        return node
+
+
 def transform(src, kind):
     if kind == 'roundtrip':
         return roundtrip(src)
     tree = ast.parse(src)
-    t = {'logging': AddLogging, 'rename': RenameLocals, 'swap': SwapCompare, 'aug': AugToAssign}[kind]()
+    t = {'logging': AddLogging, 'rename': RenameLocals, 'swap': SwapCompare, 'aug': AugToAssign, 'invert': InvertIf, 'nest': NestIf, 'demorgan': DeMorgan}[kind]()
     tree = ast.fix_missing_locations(t.visit(copy.deepcopy(tree)))
     return ast.unparse(tree) + '\n'
 
